@@ -5,18 +5,17 @@
 package interp
 
 import (
-	"gosym/smt"
 	"bytes"
 	"fmt"
 	"go/constant"
 	"go/token"
 	"go/types"
+	"gosym/smt"
 	"os"
 	"strings"
 	"unsafe"
 
 	"golang.org/x/tools/go/ssa"
-	
 )
 
 // If the target program panics, the interpreter panics with this type.
@@ -1535,7 +1534,6 @@ func fandbits[F floaty](x, y F) F {
 	}
 	return x
 }
-
 
 func symMinMax(x, y value, isMin bool) value {
 	k := kindOfVal(x)
